@@ -464,6 +464,13 @@ def canon_extra(ctx, w):
                         bad.append(io.describe()[:80])
     ctx.ob('CANON', 'named-once-index', n_idx >= 1 and not bad, short_loc(w.span),
            'named_type_written is indexed by key.idx itself at %d site(s); transformed indices: %s' % (n_idx, bad or 'none'))
+    pt = positional_truncations(w)
+    ctx.ob('CANON', 'visits-whole-collections', not pt, short_loc(w.span),
+           'positional selections (take / skip / nth / first / sub-range) in the canonical-form traversal: %s' % (sorted({x[2] for x in pt}) or 'none'))
+    # the in-progress guard of unnamed containers brackets exactly the node's own children (a shared array / map node
+    # reached twice is written twice, a cycle is refused): shared with C19
+    from . import c19
+    c19.canon_guard_semantics(ctx, [b for b in f.body_list if c19.in_scope(b)])
     live = const_folded_reachable(w)
     commas = []
     for bb, t in w.calls():
